@@ -123,7 +123,7 @@ def patched(rt: Runtime, *, taps: bool = True):
 
     def uuid4() -> Any:
         counter[0] += 1
-        return _uuid.UUID(int=(0x5151 << 112) | counter[0])
+        return _uuid.UUID(int=(counter[0] << 80) | 0x5151)
 
     undo.append((_uuid, "uuid4", _uuid.uuid4))
     _uuid.uuid4 = uuid4
